@@ -232,6 +232,45 @@ def extras(rec, exp_tree, out):
                 out.append(("ran", None, None))
 
 
+def matrix_chain():
+    """a * b * v with two matrices and a vector: the chain is (a * b) * v, i.e. exactly what `float3x3 m = a * b; return m * v;`
+    computes - the same operations in the same order, so the VM must return identical values (also for inexact operands); and
+    parentheses on the right are honoured: a * (b * v) equals `float3 w = b * v; return a * w;`."""
+    import copy
+    out = []
+    head = "export function f(float3x3 a, float3x3 b, float3 v) -> float3\n{\n"
+    progs = {"a * b * v": head + "  return a * b * v;\n}\n", "(a * b) * v": head + "  return (a * b) * v;\n}\n",
+             "left-reference": head + "  float3x3 m = a * b;\n  return m * v;\n}\n",
+             "a * (b * v)": head + "  return a * (b * v);\n}\n", "right-reference": head + "  float3 w = b * v;\n  return a * w;\n}\n",
+             "a * b * 2.5 * v": head + "  return a * b * 2.5 * v;\n}\n", "scaled-reference": head + "  float3x3 m = a * b;\n  float3x3 k = m * 2.5;\n  return k * v;\n}\n"}
+    inputs = [{"a": [[0.1, 0.2, 0.3], [1.0 / 3, 0.7, -0.9], [1e-3, 5.5, 2.0 / 7]], "b": [[0.6, -0.1, 1.0 / 9], [0.25, 0.35, 0.45], [7.7, -3.3, 0.01]], "v": [0.3, -0.7, 1.1]},
+              {"a": [[1e150, 0.0, 0.0], [0.0, 1e150, 0.0], [0.0, 0.0, 1e150]], "b": [[1e200, 0.0, 0.0], [0.0, 1e200, 0.0], [0.0, 0.0, 1e200]], "v": [1e-200, 1e-200, 1e-200]},
+              {"a": [[1.0, 2.0, 3.0], [4.0, 5.0, 6.0], [7.0, 8.0, 9.0]], "b": [[0.5, 0.0, 0.0], [0.0, 0.5, 0.0], [0.0, 0.0, 0.5]], "v": [1.0, 2.0, 3.0]}]
+    for opt in (False, True):
+        vms = {}
+        for name, src in progs.items():
+            st, r = common.compile_source(src, {"optimize": opt})
+            vms[name] = common.link_vm(r) if st == "ok" else None
+        for chain, ref in (("a * b * v", "left-reference"), ("(a * b) * v", "left-reference"), ("a * (b * v)", "right-reference"), ("a * b * 2.5 * v", "scaled-reference")):
+            if vms[chain] is None or vms[ref] is None:
+                out.append(("reject-matrix-chain", f"compiler refuses `{chain}` or its reference", {"source": progs[chain], "optimize": opt}))
+                continue
+            for ins in inputs:
+                res = []
+                for nm in (chain, ref):
+                    try:
+                        with quiet():
+                            res.append(repr(vms[nm].Invoke("f", **copy.deepcopy(ins))))
+                    except BaseException as e:  # noqa
+                        res.append("raise:" + type(e).__name__)
+                if res[0] != res[1]:
+                    out.append(("value-matrix-chain", f"`{chain}` (optimize={opt}) = {res[0]}, the grouping the language prescribes gives {res[1]}",
+                                {"source": progs[chain], "reference": progs[ref], "inputs": ins, "optimize": opt}))
+                    break
+                out.append(("ran", None, None))
+    return out
+
+
 def work(job):
     """One TLC case x contexts x layouts on the real code."""
     rec, layouts, seed, vm_plan = job
@@ -273,6 +312,7 @@ def run(ctx, args):
         jobs.append((r, layouts, ctx.seed * 1000003 + i, plan))
     with mp.Pool(16) as pool:
         results = pool.map(work, jobs, chunksize=64)
+    results.append(matrix_chain())
     evals = 0
     ran = 0
     for out in results:
@@ -293,7 +333,7 @@ def run(ctx, args):
              "operators; each is rendered in 9 contexts (return, assignment rhs, the four compound assignments, initializer, if condition, call argument) "
              f"x {'2' if quick else '6'} layouts and compared (tree via parser getters, value via the VM on 6 operand "
              "assignments). Extras: the same sequences with literal operands at both optimisation levels (all pairs, all sequences over + - and over * /, "
-             "a third of the other triples) and, for * and /, with an int4 vector as first or second operand (component-wise value). "
+             "a third of the other triples) and, for * and /, with an int4 vector as first or second operand (component-wise value); chains of two matrices and a vector against the same grouping written with a temporary. "
              "Non-trivial = mixes two precedence levels or has a parenthesis group.",
         samples=samples, exhaustive=True, traces_validated=ran,
         assumptions=["operands are int parameters; value comparison skipped where the expression divides by zero or takes % of a negative"],
